@@ -114,8 +114,8 @@ LISTEN_ONLY = bytes([8, 0, 4, 0, 0])
 def listen_only(scn, res=None):
     """coordinate: did the server execute a force-listen-only request (FC 08 / 04) in this run (without a
     result: does the scenario ask for one)?  The Twisted front-ends then ignore all further input."""
-    if res is not None and any(e['pdu'] == LISTEN_ONLY for e in res.execs):
-        return True
+    if res is not None and any(bytes(e['pdu'][:3]) == LISTEN_ONLY[:3] for e in res.execs):
+        return True         # (whatever its data field says: hostile bytes may carry 08/04 with any data)
     return any(r.get('raw') is None and r.get('pdu') == LISTEN_ONLY.hex() for reqs in scn['conns'] for r in reqs)
 
 
@@ -374,6 +374,8 @@ def gen_scenario(rng, profile):
     serial_timeout = rng.choice([0.02, 0.05, 0.2])
     if kind == 'sync_serial':
         opts['serial_timeout'] = serial_timeout
+    if profile.get('custom_rate') and rng.random() < profile['custom_rate']:
+        opts['custom_fc'] = True        # the application registered its own function code 0x41 on this server
     models = {u: refdev.RefUnit(l) for u, l in units.items()}
     nconn = 1 if kind == 'sync_serial' else rng.randint(1, profile.get('max_conns', 3))
     conns = []
@@ -418,6 +420,11 @@ def gen_scenario(rng, profile):
             elif r < profile.get('invalid_rate', 0.1) + profile.get('opaque_rate', 0.05):
                 pdu = rng.choice(OPAQUE_REQS)
                 tag = 'opaque'
+            if pdu is None and profile.get('custom_rate') and rng.random() < 0.05 and tag != 'broadcast':
+                # an application-defined function code (0x41, two data bytes, echo): served only by a server on
+                # which the application registered it (opts.custom_fc), exception 01 everywhere else
+                pdu = bytes([0x41]) + uniq.next().to_bytes(2, 'big')
+                tag = 'custom'
             if pdu is None:
                 pdu = gen_valid(rng, m, uniq, fcs=profile.get('fcs'))
                 tag = 'valid' if tag != 'broadcast' else tag
@@ -682,6 +689,8 @@ class Analysis(object):
             acc, applied = (None, False)
             if m is not None:
                 acc, applied = m.execute(owner['pdu'])
+            if owner['pdu'][:1] == b'\x41' and len(owner['pdu']) == 3 and opts.get('custom_fc'):
+                acc, applied = {bytes(owner['pdu'])}, False     # registered application function: echo
             nxt = self._next_seq(e)
             dsfault_hit = any(a[2] == 'FAULT' and e['seq'] < a[0] < nxt for a in res.access)
             owner['acc'] = acc
